@@ -32,27 +32,35 @@ Qed.
 Lemma firstn_app_exact (s t : list Z) : firstn (length s) (s ++ t) = s.
 Proof. rewrite firstn_app, Nat.sub_diag, firstn_all. cbn. apply app_nil_r. Qed.
 
-(* ---------------------------------------------------------------- creation *)
+(* ---------------------------------------------------------------- creation (after fix 71aae69) *)
 Lemma str_to_bytes_ok m s b :
-  str_to_bytes m s = Ok b <-> (blen s <= m /\ b = s ++ repeat 0 (Z.to_nat (m - blen s))).
+  str_to_bytes m s = Ok b <->
+  (blen s < m /\ has_nul s = false /\ b = s ++ repeat 0 (Z.to_nat (m - blen s))).
 Proof.
-  unfold str_to_bytes. destruct (Z.ltb_spec m (blen s)); split.
+  unfold str_to_bytes. destruct (Z.leb_spec m (blen s)); [split; [discriminate|intros [L _]; lia]|].
+  destruct (has_nul s); split.
   - discriminate.
-  - intros [L _]. lia.
-  - intros E. inversion E. split; [lia|reflexivity].
-  - intros [_ ->]. reflexivity.
+  - intros (_ & N & _). discriminate.
+  - intros E. inversion E. repeat split; auto.
+  - intros (_ & _ & ->). reflexivity.
 Qed.
 
-Lemma str_to_bytes_err m s : (exists e, str_to_bytes m s = Err e) <-> m < blen s.
+Lemma str_to_bytes_err m s e :
+  str_to_bytes m s = Err e <->
+  ((m <= blen s /\ e = E_LEN) \/ (blen s < m /\ has_nul s = true /\ e = E_FORMAT)).
 Proof.
-  unfold str_to_bytes. destruct (Z.ltb_spec m (blen s)); split; try lia.
-  - intros _. eauto.
-  - intros [e E]. discriminate.
+  unfold str_to_bytes. destruct (Z.leb_spec m (blen s)).
+  - split; [intros E; inversion E; left; auto | intros [[_ ->]|[L _]]; [reflexivity|lia]].
+  - destruct (has_nul s); split.
+    + intros E. inversion E. right. auto.
+    + intros [[L _]|(_ & _ & ->)]; [lia|reflexivity].
+    + discriminate.
+    + intros [[L _]|(_ & N & _)]; [lia|discriminate].
 Qed.
 
-Lemma stored_length m s b : 0 <= m -> str_to_bytes m s = Ok b -> blen b = m.
+Lemma stored_length m s b : str_to_bytes m s = Ok b -> blen b = m.
 Proof.
-  intros Hm E. apply str_to_bytes_ok in E as [L ->]. unfold blen in *.
+  intros E. apply str_to_bytes_ok in E as (L & _ & ->). unfold blen in *.
   rewrite app_length, repeat_length. lia.
 Qed.
 
@@ -61,41 +69,62 @@ Lemma readback_good m s : utf8_valid s = true -> blen s < m -> has_nul s = false
   exists b, str_to_bytes m s = Ok b /\ bytes_to_str b = Ok s.
 Proof.
   intros U L N. eexists. split.
-  - apply str_to_bytes_ok. split; [lia|reflexivity].
+  - apply str_to_bytes_ok. repeat split; auto.
   - unfold bytes_to_str.
     assert (E : exists k, Z.to_nat (m - blen s) = S k) by (exists (Z.to_nat (m - blen s) - 1)%nat; lia).
     destruct E as [k ->]. cbn [repeat].
     rewrite (position_nul_app_nonul s _ N). rewrite firstn_app_exact. now rewrite U.
 Qed.
 
-(* a name that exactly fills the field is stored without terminator: reading fails *)
-Lemma readback_exact_fill m s : blen s = m -> has_nul s = false ->
-  str_to_bytes m s = Ok s /\ bytes_to_str s = Err E_FORMAT.
+(* EVERY accepted name reads back unchanged *)
+Theorem accepted_roundtrip m s b : utf8_valid s = true ->
+  str_to_bytes m s = Ok b -> bytes_to_str b = Ok s.
 Proof.
-  intros L N. split.
-  - apply str_to_bytes_ok. split; [lia|]. rewrite L, Z.sub_diag. cbn. now rewrite app_nil_r.
-  - unfold bytes_to_str. now rewrite (position_nul_none s N).
+  intros U E. pose proof E as E'. apply str_to_bytes_ok in E' as (L & N & _).
+  destruct (readback_good m s U L N) as (b' & E2 & R).
+  rewrite E2 in E. assert (Hb : b' = b) by (inversion E; reflexivity). rewrite <- Hb. exact R.
 Qed.
 
-(* a name containing NUL reads back as something strictly shorter (or not at all) *)
-Lemma readback_interior_nul m s b : has_nul s = true -> str_to_bytes m s = Ok b ->
-  exists n, position_nul s = Some n /\ (n < length s)%nat /\
-    (bytes_to_str b = Ok (firstn n s) \/ bytes_to_str b = Err E_UTF8).
+(* accepted <-> readable (strictly shorter than the field, no NUL) *)
+Theorem accepted_iff_readable m s : (exists b, str_to_bytes m s = Ok b) <-> readable m s = true.
 Proof.
-  intros N E. apply str_to_bytes_ok in E as [L ->].
-  destruct (position_nul_has s (repeat 0 (Z.to_nat (m - blen s))) N) as (n & E1 & E2 & Ln).
-  exists n. split; [exact E2|]. split; [exact Ln|].
-  unfold bytes_to_str. rewrite E1. rewrite firstn_app.
-  replace (n - length s)%nat with O by lia. cbn [firstn]. rewrite app_nil_r.
-  destruct (utf8_valid (firstn n s)); auto.
+  unfold readable. split.
+  - intros [b E]. apply str_to_bytes_ok in E as (L & N & _).
+    apply andb_true_intro. split; [now apply Z.ltb_lt|]. now rewrite N.
+  - intros H. apply andb_prop in H as [L N]. apply Z.ltb_lt in L. apply Bool.negb_true_iff in N.
+    eexists. apply str_to_bytes_ok. repeat split; auto.
 Qed.
 
-Lemma firstn_shorter_neq (s : list Z) n : (n < length s)%nat -> firstn n s <> s.
+Theorem roundtrip_iff m s : utf8_valid s = true ->
+  (exists b, str_to_bytes m s = Ok b /\ bytes_to_str b = Ok s) <-> (blen s < m /\ has_nul s = false).
 Proof.
-  intros L E. assert (length (firstn n s) = length s) by now rewrite E.
-  rewrite firstn_length in H. lia.
+  intros U. split.
+  - intros (b & E & _). apply str_to_bytes_ok in E as (L & N & _). auto.
+  - intros [L N]. now apply readback_good.
 Qed.
 
+(* the two formerly accepted classes are now refused at creation *)
+Theorem exact_fill_rejected m s : blen s = m -> str_to_bytes m s = Err E_LEN.
+Proof. intros L. apply str_to_bytes_err. left. split; [lia|reflexivity]. Qed.
+
+Theorem nul_rejected m s : has_nul s = true -> exists e, str_to_bytes m s = Err e.
+Proof.
+  intros N. destruct (Z_le_gt_dec m (blen s)).
+  - exists E_LEN. apply str_to_bytes_err. left. auto.
+  - exists E_FORMAT. apply str_to_bytes_err. right. repeat split; auto. lia.
+Qed.
+
+Definition name_a32 : list Z := repeat 97 32.            (* "a" x 32 *)
+Definition name_nul : list Z := [97; 98; 0; 99; 100].    (* "ab\0cd" *)
+
+Theorem former_witnesses_rejected :
+  str_to_bytes 32 name_a32 = Err E_LEN /\ str_to_bytes 32 name_nul = Err E_FORMAT.
+Proof. split; reflexivity. Qed.
+
+(* what the UNFIXED code did with them, kept as a lemma about the reader alone: a field that
+   is completely filled has no terminator, a field with an early NUL reads as the prefix *)
+Lemma reader_exact_fill s : has_nul s = false -> bytes_to_str s = Err E_FORMAT.
+Proof. intros N. unfold bytes_to_str. now rewrite (position_nul_none s N). Qed.
 
 Lemma utf8_step a r :
   utf8_valid (a :: r) =
@@ -173,63 +202,3 @@ Proof.
     cbn. f_equal. now apply IH.
 Qed.
 
-(* exact behaviour on a name containing NUL: it reads back as the part before the first NUL *)
-Lemma readback_interior_nul_exact m s b : utf8_valid s = true -> has_nul s = true ->
-  str_to_bytes m s = Ok b ->
-  exists n, position_nul s = Some n /\ (n < length s)%nat /\ bytes_to_str b = Ok (firstn n s).
-Proof.
-  intros U N E. destruct (readback_interior_nul m s b N E) as (n & P & Ln & R).
-  exists n. split; [exact P|]. split; [exact Ln|].
-  assert (V : utf8_valid (firstn n s) = true).
-  { pose proof (position_nul_split s n P) as Sp. rewrite Sp in U.
-    apply (utf8_prefix_nul (length (firstn n s)) _ _ (le_n _) U). }
-  destruct R as [R|R]; [exact R|].
-  exfalso. apply str_to_bytes_ok in E as [L ->].
-  destruct (position_nul_has s (repeat 0 (Z.to_nat (m - blen s))) N) as (n' & E1 & E2 & _).
-  assert (n' = n) by congruence. subst n'.
-  unfold bytes_to_str in R. rewrite E1 in R. rewrite firstn_app in R.
-  replace (n - length s)%nat with O in R by lia. cbn [firstn] in R. rewrite app_nil_r in R.
-  rewrite V in R. discriminate.
-Qed.
-
-(* ---------------------------------------------------------------- the property *)
-Theorem roundtrip_iff m s : utf8_valid s = true ->
-  (exists b, str_to_bytes m s = Ok b /\ bytes_to_str b = Ok s) <-> (blen s < m /\ has_nul s = false).
-Proof.
-  intros U. split.
-  - intros (b & E & R). pose proof E as E'. apply str_to_bytes_ok in E' as [L Eb].
-    destruct (has_nul s) eqn:N.
-    + exfalso. destruct (readback_interior_nul m s b N E) as (n & _ & Ln & [R'|R']); rewrite R' in R.
-      * inversion R as [R2]. now apply (firstn_shorter_neq s n Ln).
-      * discriminate.
-    + split; [|reflexivity]. destruct (Z.eq_dec (blen s) m) as [Em|Nm]; [|lia].
-      exfalso. destruct (readback_exact_fill m s Em N) as [E2 R2].
-      rewrite E2 in E. assert (Hb : s = b) by (inversion E; reflexivity).
-      rewrite <- Hb in R. rewrite R2 in R. discriminate.
-  - intros [L N]. now apply readback_good.
-Qed.
-
-(* accepted and outside the two known classes -> reads back unchanged *)
-Theorem accepted_outside_classes_roundtrip m s b : utf8_valid s = true ->
-  str_to_bytes m s = Ok b -> blen s <> m -> has_nul s = false -> bytes_to_str b = Ok s.
-Proof.
-  intros U E Nm N. pose proof E as E'. apply str_to_bytes_ok in E' as [L _].
-  destruct (readback_good m s U) as (b' & E2 & R); [lia|exact N|].
-  rewrite E2 in E. assert (Hb : b' = b) by (inversion E; reflexivity). rewrite <- Hb. exact R.
-Qed.
-
-(* every readable name is accepted *)
-Theorem readable_accepted m s : readable m s = true -> exists b, str_to_bytes m s = Ok b.
-Proof.
-  unfold readable. intros H. apply andb_prop in H as [L _]. apply Z.ltb_lt in L.
-  eexists. apply str_to_bytes_ok. split; [lia|reflexivity].
-Qed.
-
-(* witnesses of the defect on the 32-byte fields *)
-Definition name_a32 : list Z := repeat 97 32.            (* "a" x 32 *)
-Definition name_nul : list Z := [97; 98; 0; 99; 100].    (* "ab\0cd" *)
-
-Theorem accepted_unreadable_refuted :
-  (exists b, utf8_valid name_a32 = true /\ str_to_bytes 32 name_a32 = Ok b /\ bytes_to_str b = Err E_FORMAT) /\
-  (exists b, utf8_valid name_nul = true /\ str_to_bytes 32 name_nul = Ok b /\ bytes_to_str b = Ok [97; 98]).
-Proof. split; eexists; vm_compute; repeat split; reflexivity. Qed.
